@@ -190,6 +190,36 @@ Definition termini_decode (m : msg) : dres termini :=
   | d, s => DOk (mkTermini (map (fun v => hash_of_msg (as_msg v)) d) (map (fun v => hash_of_msg (as_msg v)) s))
   end.
 
+
+(* --- rawdb keys and values with fixed-width big-endian fields (core/rawdb/schema.go, accessors_chain.go) --- *)
+
+(* binary.BigEndian.PutUintN into an n-byte field *)
+Definition be_fixed (n : nat) (v : N) : bytes := set_bytes n (be_enc v).
+
+(* UtxoKey(hash, index) = "ut" ++ hash ++ uint16 index *)
+Definition utxo_prefix : bytes := [117; 116].
+Definition utxo_key (h : bytes) (i : N) : bytes := utxo_prefix ++ h ++ be_fixed 2 (i mod 65536).
+(* ReverseUtxoKey: only the length is checked, the prefix is not *)
+Definition reverse_utxo_key (k : bytes) : dres (bytes * N) :=
+  if Nat.eqb (length k) 36 then DOk (firstn 32 (skipn 2 k), be_dec (skipn 34 k)) else DErr.
+
+(* coinbase lockup record: amount (32 bytes, right aligned) ++ unlock height (uint32) ++ elements (uint16)
+   ++ delegate (20 bytes, only when it is not the zero address): 38 or 58 bytes
+   (WriteCoinbaseLockup / WriteCoinbaseLockupToSlice / ReadCoinbaseLockup) *)
+Record lockup := mkLockup { lk_amount : N; lk_height : N; lk_elements : N; lk_delegate : option bytes }.
+Definition is_zero_bytes (b : bytes) : bool := forallb (N.eqb 0) b.
+Definition lockup_encode (l : lockup) : dres bytes :=
+  let a := be_enc (lk_amount l) in
+  if Nat.ltb 32 (length a) then DErr       (* "amount is too large" *)
+  else DOk (set_bytes 32 a ++ be_fixed 4 (lk_height l mod 4294967296) ++ be_fixed 2 (lk_elements l mod 65536)
+            ++ match lk_delegate l with
+               | Some d => if is_zero_bytes d then [] else d
+               | None => []
+               end).
+Definition lockup_decode (b : bytes) : lockup :=
+  mkLockup (be_dec (firstn 32 b)) (be_dec (firstn 4 (skipn 32 b))) (be_dec (firstn 2 (skipn 36 b)))
+           (if Nat.eqb (length b) 58 then Some (skipn 38 b) else None).
+
 (* ------------------------------------------------------------------ *)
 (* 4. cases                                                            *)
 
@@ -206,6 +236,11 @@ Definition opd_eqb (a b : opd) : bool :=
   keqb (od_hash a) (od_hash b) && (od_index a =? od_index b) && (od_denom a =? od_denom b) && oN_eqb (od_lock a) (od_lock b).
 Definition termini_eqb (a b : termini) : bool :=
   list_eqb keqb (t_dom a) (t_dom b) && list_eqb keqb (t_sub a) (t_sub b).
+
+Definition hi_eqb (a b : bytes * N) : bool := keqb (fst a) (fst b) && (snd a =? snd b).
+Definition lockup_eqb (a b : lockup) : bool :=
+  (lk_amount a =? lk_amount b) && (lk_height a =? lk_height b) && (lk_elements a =? lk_elements b)
+  && obytes_eqb (lk_delegate a) (lk_delegate b).
 
 Definition dres_eqb {A} (eqb : A -> A -> bool) (a b : dres A) : bool :=
   match a, b with DOk x, DOk y => eqb x y | DErr, DErr => true | _, _ => false end.
@@ -232,13 +267,19 @@ Inductive case :=
 | CTxOutDec (id : N) (b : bytes) (back : dres txout)
 | CUtxoDec (id : N) (b : bytes) (back : dres txout)
 | COutPointDec (id : N) (b : bytes) (back : dres outpoint)
-| COpdDec (id : N) (b : bytes) (back : dres opd).
+| COpdDec (id : N) (b : bytes) (back : dres opd)
+(* rawdb: UtxoKey(h, i) and what ReverseUtxoKey returns for it / for arbitrary key bytes *)
+| CUtxoKey (id : N) (h : bytes) (i : N) (key : bytes) (rev : dres (bytes * N))
+| CUtxoKeyDec (id : N) (key : bytes) (rev : dres (bytes * N))
+(* rawdb: lockup record written by WriteCoinbaseLockupToSlice / WriteCoinbaseLockup, and what ReadCoinbaseLockup returns *)
+| CLockup (id : N) (l : lockup) (rec : dres bytes) (back : lockup).
 
 Definition case_id (c : case) : N :=
   match c with
   | CProto i _ _ _ | CProtoDec i _ _ _ | CRlp i _ _ | CRlpDec i _ _
   | CTxOut i _ _ _ | CUtxo i _ _ _ | COutPoint i _ _ _ | COpd i _ _ _ | CTermini i _ _ _
-  | CTxOutDec i _ _ | CUtxoDec i _ _ | COutPointDec i _ _ | COpdDec i _ _ => i
+  | CTxOutDec i _ _ | CUtxoDec i _ _ | COutPointDec i _ _ | COpdDec i _ _
+  | CUtxoKey i _ _ _ _ | CUtxoKeyDec i _ _ | CLockup i _ _ _ => i
   end.
 
 Definition oitem_eqb (a b : option item) : bool :=
@@ -265,6 +306,11 @@ Definition case_ok (c : case) : bool :=
   | CUtxoDec _ b back => dres_eqb txout_eqb (obj_decode id_block_ProtoTxOut utxo_decode b) back
   | COutPointDec _ b back => dres_eqb outpoint_eqb (obj_decode id_block_ProtoOutPoint outpoint_decode b) back
   | COpdDec _ b back => dres_eqb opd_eqb (obj_decode id_block_ProtoOutPointAndDenomination opd_decode b) back
+  | CUtxoKey _ h i key rev => keqb (utxo_key h i) key && dres_eqb hi_eqb (reverse_utxo_key key) rev
+  | CUtxoKeyDec _ key rev => dres_eqb hi_eqb (reverse_utxo_key key) rev
+  | CLockup _ l rec back =>
+      dres_eqb keqb (lockup_encode l) rec
+      && match rec with DOk b => lockup_eqb (lockup_decode b) back | DErr => true end
   end.
 
 Definition mismatches (cs : list case) : list N :=
